@@ -101,8 +101,25 @@ class Analysis:
         self._run()
 
     # ------------------------------------------------------------------ driver
+    def new_private_helper(self, tgt):
+        """FunctionDef if tgt is a private (underscore) function that is not in the frozen inventory of known functions"""
+        from .symx import inventory
+        mod, _, qual = tgt.partition(".")
+        m = self.repo.modules.get(mod)
+        if m is None or qual not in m.functions:
+            return None
+        last = qual.split(".")[-1]
+        if not last.startswith("_") or last.startswith("__"):
+            return None
+        inv = inventory().get(mod)
+        if inv is not None and qual in inv["functions"]:
+            return None
+        return m.functions[qual]
+
     def _run(self):
         funcs = list(self.repo.all_functions(include_demo=False, include_nested=False))
+        # private helpers introduced by a refactoring are not entry points: they are analysed at their call sites
+        funcs = [(mn, q, fn) for mn, q, fn in funcs if self.new_private_helper("%s.%s" % (mn, q)) is None]
         for it in range(4):
             before = (dict(self.ret), dict(self.fields))
             self.events = []
@@ -162,7 +179,7 @@ class FuncAnalysis:
     def event(self, kind, node, msg, keytext):
         self.an.events.append(Event(kind, self.mod, self.qual, node, msg, keytext))
 
-    def run(self):
+    def run(self, actuals=None):
         env = dict(self.outer_env) if self.outer_env else {}
         a = self.fn.args
         params = [x.arg for x in a.posonlyargs + a.args + a.kwonlyargs]
@@ -184,6 +201,12 @@ class FuncAnalysis:
             env[a.vararg.arg] = V("paramseq", origin=a.vararg.arg)
         if a.kwarg:
             env[a.kwarg.arg] = V("paramkw", origin=a.kwarg.arg)
+        if actuals:
+            for p_, v_ in actuals.items():
+                env[p_] = v_
+            for p_, d_ in zip(params[len(params) - len(a.defaults):], a.defaults):
+                if p_ not in actuals:
+                    env[p_] = self.ev(d_, env)
         try:
             self.block(body_without_docstring(self.fn), env)
             # falls off the end
@@ -302,6 +325,19 @@ class FuncAnalysis:
                     break
             if s.orelse:
                 self.block(s.orelse, env)
+            # validation loop: `for v in (a, b, c): if not isinstance(v, T): raise ...` types every listed name
+            if isinstance(s, ast.For) and isinstance(s.target, ast.Name) and len(s.body) == 1 and isinstance(s.body[0], ast.If) \
+                    and not s.body[0].orelse and s.body[0].body and isinstance(s.body[0].body[-1], ast.Raise):
+                seq = self.name_tuple(s.iter)
+                t_ = s.body[0].test
+                if seq and isinstance(t_, ast.UnaryOp) and isinstance(t_.op, ast.Not) and isinstance(t_.operand, ast.Call) \
+                        and isinstance(t_.operand.func, ast.Name) and t_.operand.func.id == "isinstance" and len(t_.operand.args) == 2 \
+                        and isinstance(t_.operand.args[0], ast.Name) and t_.operand.args[0].id == s.target.id:
+                    tys = self.type_atoms(t_.operand.args[1])
+                    if tys is not None:
+                        for nm in seq:
+                            cur = env.get(nm)
+                            env[nm] = V(tys, origin=(cur.origin if cur else None))
         elif isinstance(s, ast.Expr):
             v = s.value
             if isinstance(v, ast.Call) and isinstance(v.func, ast.Attribute) and isinstance(v.func.value, ast.Name):
@@ -453,6 +489,20 @@ class FuncAnalysis:
                     env["$dead"] = V("dead")
                 env[k] = V(cur.atoms, cur.const, None, cur.origin, ns)
             return
+        if isinstance(test, ast.Call) and isinstance(test.func, ast.Name) and test.func.id == "all" and len(test.args) == 1 \
+                and isinstance(test.args[0], (ast.GeneratorExp, ast.ListComp)) and len(test.args[0].generators) == 1 and truth:
+            # all(isinstance(x, T) for x in (a, b, c))  - also through a local name bound once to such a tuple
+            g = test.args[0].generators[0]
+            elt = test.args[0].elt
+            seq = self.name_tuple(g.iter)
+            if seq and not g.ifs and isinstance(g.target, ast.Name) and isinstance(elt, ast.Call) and isinstance(elt.func, ast.Name) \
+                    and elt.func.id == "isinstance" and len(elt.args) == 2 and isinstance(elt.args[0], ast.Name) and elt.args[0].id == g.target.id:
+                tys = self.type_atoms(elt.args[1])
+                if tys is not None:
+                    for nm in seq:
+                        cur = env.get(nm)
+                        env[nm] = V(tys, origin=(cur.origin if cur else None))
+            return
         if isinstance(test, ast.Call) and isinstance(test.func, ast.Name) and test.func.id == "isinstance" \
                 and len(test.args) == 2:
             k = self.refkey(test.args[0])
@@ -474,6 +524,17 @@ class FuncAnalysis:
                     if rest and rest != set(cur.atoms):
                         env[k] = V(rest, origin=cur.origin)
             return
+
+    def name_tuple(self, node):
+        """names of a tuple/list of plain names, given literally or through a local bound exactly once to such a literal"""
+        if isinstance(node, (ast.Tuple, ast.List)) and node.elts and all(isinstance(e, ast.Name) for e in node.elts):
+            return [e.id for e in node.elts]
+        if isinstance(node, ast.Name):
+            binds = [n for n in ast.walk(self.fn) if isinstance(n, ast.Assign) and len(n.targets) == 1
+                     and isinstance(n.targets[0], ast.Name) and n.targets[0].id == node.id]
+            if len(binds) == 1:
+                return self.name_tuple(binds[0].value) if not isinstance(binds[0].value, ast.Name) else None
+        return None
 
     def refkey(self, node):
         if isinstance(node, ast.Name):
@@ -937,6 +998,18 @@ class FuncAnalysis:
         return TOP
 
     def ret_of(self, tgt, node, args):
+        hf = self.an.new_private_helper(tgt)
+        if hf is not None and getattr(self, "_depth", 0) < 3:
+            # a private helper introduced by a refactoring: analysed in the context of this call (actual argument kinds)
+            mod, _, qual = tgt.partition(".")
+            sub = FuncAnalysis(self.an, mod, qual, hf)
+            sub._depth = getattr(self, "_depth", 0) + 1
+            names = [a.arg for a in hf.args.posonlyargs + hf.args.args]
+            static = any(isinstance(d, ast.Name) and d.id in ("staticmethod", "classmethod") for d in hf.decorator_list)
+            vals = list(args)
+            if sub.cls is not None and not static and names and names[0] == "self":
+                vals = [V("obj:%s.%s" % (mod, sub.cls))] + vals
+            return sub.run(actuals=dict(zip(names, vals)))
         val = self.an.validators.get(tgt)
         if val and self._env is not None:
             static = True
